@@ -778,7 +778,16 @@ class Py2Cpp(ITranspiler):
 		return self.render(node, f'statement/{node.classification}')
 
 	def on_continue(self, node: defs.Continue) -> str:
-		return self.render(node, f'statement/{node.classification}')
+		continue_stmt = self.render(node, f'statement/{node.classification}')
+		# XXX enumerateのインデックスはブロックの末尾で加算しているため、直近のループがenumerateの場合はcontinueの直前でも加算する
+		loop = node.parent
+		while not isinstance(loop, (defs.For, defs.While, defs.Function, defs.Entrypoint)):
+			loop = loop.parent
+
+		if isinstance(loop, defs.For) and isinstance(loop.iterates, defs.FuncCall) and isinstance(loop.iterates.calls, defs.Var) and loop.iterates.calls.tokens == enumerate.__name__:
+			return f'{loop.symbols[0].domain_name}++;\n{continue_stmt}'
+
+		return continue_stmt
 
 	def on_comment(self, node: defs.Comment) -> str:
 		return self.render(node, f'statement/{node.classification}', vars={'text': node.text})
